@@ -16,13 +16,18 @@ class Lane(LaneBase):
             'every raising call on the implementation and the reply stream is compared with the model (whose failing '
             'steps return the state unchanged, by theorem). Non-trivial: at least one call raised on a graph that had '
             'an edge; distinct by the hash of the reply stream. Thorough tier additionally: every failing (state, '
-            'operation) pair over the exhaustive 3-name universes (see C01).')
+            'operation) pair over the exhaustive 3-name universes (see C01). A twin graph receives only the accepted '
+            'calls; at the end every read view and every (memoised) reader must answer the same on both. Node '
+            'arguments are given as identifiers, own Node objects or stale Node objects. Two deep-chain cases (1300 '
+            'nodes, beyond the recursion limit): cycle-closing calls must be refused with the same error and no change.')
     TRUSTED = ['snapshot = what the public readers return (object identity / invalidated handles not compared)']
 
     EXHAUSTIVE = {'thorough': True}
 
     def cases(self, tier, rng):
         yield from histories.gen_cases(tier, rng, 2000, 8000, singles_only=True)
+        for cls in ('plain', 'ts'):
+            yield {'kind': 'deep', 'cls': cls, 'n': 1300 if tier == 'quick' else 2500}
         if tier == 'thorough':
             yield from exhaustive.cases()
 
@@ -47,10 +52,73 @@ class Lane(LaneBase):
         return {'lines': lines, 'impl': out, 'oracle': oracle, 'nontrivial': nontrivial[0],
                 'key': repr((case['cls'], case['state'], case['ops'][0])), 'tags': sorted(tags)}
 
+    def run_deep(self, case):
+        """a directed chain far deeper than the interpreter's recursion limit: a validated call that closes a cycle over
+        it must be refused like on a small graph, and leave the graph as it was (oracle only; the model is not consulted)"""
+        from cai_causal_graph.type_definitions import EdgeType
+        n = case['n']
+        g = impl.new_graph(case['cls'])
+        names = [f'n{i:05d}' for i in range(n)]
+        for a, b in zip(names, names[1:]):
+            g.add_edge(a, b, validate=False)
+        g.add_edge(names[-1], 'side', edge_type=EdgeType.UNDIRECTED_EDGE)
+        g.add_edge('side', names[0], edge_type=EdgeType.DIRECTED_EDGE)
+
+        def shot():
+            return (g.get_node_names(), [(e.source.identifier, e.destination.identifier, impl.ety(e)) for e in g.get_edges()],
+                    sorted(g.get_parents(names[0])), sorted(g.get_children(names[-1])))
+        oracle, tags = [], set()
+        calls = [('add_edge', lambda: g.add_edge(names[-1], names[0])),
+                 ('add_edge_by_pair', lambda: g.add_edge_by_pair((names[-1], names[0]))),
+                 ('change_edge_type', lambda: g.change_edge_type(names[-1], 'side', EdgeType.DIRECTED_EDGE)),
+                 ('replace_edge', lambda: g.replace_edge(names[-1], 'side', names[-1], names[n // 2],
+                                                        edge_type=EdgeType.DIRECTED_EDGE))]
+        for name, f in calls:
+            before = shot()
+            try:
+                f()
+                r = 'ok'
+            except BaseException as e:  # noqa: BLE001 -- RecursionError included: it is the observation here
+                r = type(e).__name__
+            tags.add(f'deep:{name}:{r}')
+            if r == 'ok':
+                oracle.append(f'deep chain ({n} nodes): {name} accepted a cycle-closing edge')
+                break
+            if shot() != before:
+                oracle.append(f'deep chain ({n} nodes): {name} raised {r} and changed the graph')
+                break
+            if r != 'CyclicConnectionError':
+                oracle.append(f'deep chain ({n} nodes): {name} raised {r}, a small graph gets CyclicConnectionError')
+                break
+        return {'lines': [], 'impl': [], 'oracle': oracle, 'nontrivial': True, 'key': f"deep:{case['cls']}:{n}",
+                'tags': sorted(tags)}
+
+    READERS = ['isdag', 'fd', 'fu', 'nx', 'adj', 'numpy', 'skel', 'vars', 'ismin', 'isstat', 'lags', 'adjmats']
+
+    def twin_failures(self, g, t, cls, last_rejected):
+        """`g` saw rejected calls, the twin `t` only the accepted ones: every answer must be the same"""
+        from harness.lanes import c04
+        bad = []
+        if impl.obs(g) != impl.obs(t):
+            bad.append(f'after a rejected {last_rejected} the read views differ from a twin that only saw the accepted calls')
+        for name in self.READERS:
+            if name not in c04.readers_of(cls):
+                continue
+            a, b = c04.read(g, name), c04.read(t, name)
+            if a != b:
+                bad.append(f'after a rejected {last_rejected} `{name}` answers {str(a)[:80]} but {str(b)[:80]} on a twin that '
+                           f'only saw the accepted calls')
+                break
+        return bad
+
     def run_case(self, case):
         if case.get('kind') == 'exh':
             return self.run_exh(case)
+        if case.get('kind') == 'deep':
+            return self.run_deep(case)
         g = impl.new_graph(case['cls'], case.get('gmeta') or None)
+        twin = impl.new_graph(case['cls'], case.get('gmeta') or None)
+        last_rejected = None
         lines = [f"g new h {case['cls']} {impl.enc_meta(case.get('gmeta'))}"]
         out = ['ok']
         oracle = []
@@ -62,7 +130,14 @@ class Lane(LaneBase):
             lines.append(impl.op_line('h', op))
             r = impl.apply_op(g, op)
             out.append(r)
+            if r == 'ok' and twin is not None:
+                if impl.apply_op(twin, op) != 'ok':
+                    if last_rejected and not oracle:
+                        oracle.append(f'after a rejected {last_rejected}, {op[0]} is accepted although a twin that only saw '
+                                      f'the accepted calls refuses it')
+                    twin = None
             if r != 'ok':
+                last_rejected = op[0]
                 tags.add(op[0] + ':' + r[4:])
                 after = impl.snapshot(g)
                 if had_edge:
@@ -77,6 +152,15 @@ class Lane(LaneBase):
                 histories.warm_caches(g)
         lines.append('g obs h')
         out.append(impl.obs(g))
+        if twin is not None and last_rejected and not oracle:
+            # "unchanged" includes what cannot be seen at once: the graph must go on behaving like one that never saw the
+            # rejected calls (every reader, with whatever the caches hold)
+            try:
+                oracle += self.twin_failures(g, twin, case['cls'], last_rejected)[:1]
+            except RecursionError:
+                raise
+            except Exception as e:  # noqa: BLE001
+                oracle.append(f'comparing with the twin raised {type(e).__name__}')
         key = hashlib.sha1('\n'.join(out).encode()).hexdigest()
         return {'lines': lines, 'impl': out, 'oracle': oracle, 'nontrivial': nontrivial, 'key': key, 'tags': sorted(tags)}
 
@@ -95,5 +179,7 @@ class Lane(LaneBase):
                 c2 = dict(case, ops=[op])
                 if still_fails(c2):
                     return c2
+            return case
+        if case.get('kind') == 'deep':
             return case
         return histories.shrink_ops(case, still_fails)
